@@ -676,8 +676,8 @@ static uint64_t ncases(void)
     maxlen2 = 2;
     ncombo = (uint64_t)4 * nscripts(maxlen2);
     npairs = ncombo * (ncombo + 1) / 2;
-    nsample3 = vrt_thorough ? 20000 : 1500;
-    nrandom = vrt_thorough ? 20000 : 2000;
+    nsample3 = vrt_thorough ? 40000 : 8000;
+    nrandom = vrt_thorough ? 30000 : 6000;
     return npairs + NSELECTED + nsample3 + nrandom;
 }
 static void winit(void)
